@@ -67,7 +67,7 @@ Proof.
   - (* Tm *)
     destruct t as [p|b|id]; simpl in H.
     + injection H as <- <-. split; [|repeat constructor]. unfold expands. simpl.
-      eexists. split; [reflexivity|]. simpl. apply payload_eqb_eq. reflexivity.
+      eexists. split; [reflexivity|]. simpl. unfold units_eqb. apply (list_eqb_eq N.eqb N.eqb_eq). reflexivity.
     + injection H as <- <-. split; [|repeat constructor]. unfold expands. simpl.
       eexists. split; [reflexivity|]. simpl. apply Bool.eqb_reflx.
     + destruct tp as [|[i|n|p] tp0]; try discriminate.
